@@ -707,6 +707,85 @@ pub fn generic_closure_family() -> Vec<Prog> {
   out
 }
 
+/// Self-call positions: the recursive call of `f` in every position relative to the value of the
+/// branch it sits in (tail, bound-then-returned, discarded-then-literal, discarded-then-variable,
+/// used, after a side effect, twice, in a nested branch, in a match arm) x result type x function
+/// or method. Only some of these are tail calls; the tail-recursion rewrite must tell them apart.
+pub fn self_call_position_family() -> Vec<Prog> {
+  // (name, body of the recursive branch; CALL(x) = the self call with first argument x)
+  let positions: [(&str, &str); 12] = [
+    ("tail", "CALL(n - 1)"),
+    ("bound-then-returned", "{ let r = CALL(n - 1); r }"),
+    ("discarded-then-literal", "{ let _ = CALL(n - 1); LIT }"),
+    ("discarded-then-variable", "{ let _ = CALL(n - 1); VAR }"),
+    ("used", "{ let r = CALL(n - 1); USE }"),
+    ("side-effect-then-tail", "{ Process.println(\"in \" :: Str.fromInt(n)); CALL(n - 1) }"),
+    ("discarded-then-tail", "{ let _ = CALL(n - 2); CALL(n - 1) }"),
+    ("nested-if-tail-or-discard", "if n % 2 == 0 { CALL(n - 1) } else { let _ = CALL(n - 2); LIT }"),
+    ("nested-if-discard-or-tail", "if n % 2 == 0 { let _ = CALL(n - 1); LIT } else { CALL(n - 2) }"),
+    ("match-arm-discard", "match Main.pred(n) { None -> LIT, Some(k) -> { let _ = CALL(k); LIT } }"),
+    ("match-arm-tail", "match Main.pred(n) { None -> LIT, Some(k) -> CALL(k) }"),
+    ("statement-then-literal", "{ let _ = CALL(n - 1); let z = n + 1; let _ = z; LIT }"),
+  ];
+  // (type, base value, literal of the recursive branch, variable expression, use expression, show)
+  let types: [(&str, &str, &str, &str, &str, &str); 3] = [
+    ("int", "0", "1", "n", "r + n", "Str.fromInt(X)"),
+    ("bool", "false", "true", "n > 2", "!r", "(if X { \"T\" } else { \"F\" })"),
+    ("Str", "\"base\"", "\"lit\"", "Str.fromInt(n)", "r :: \"+\"", "X"),
+  ];
+  let mut out = vec![];
+  for (pname, body) in positions {
+    for (ty, base, lit, var, use_, show) in types {
+      for method in [false, true] {
+        let call = |arg: &str| if method { format!("this.f({arg})") } else { format!("Main.f({arg})") };
+        let mut b = body.replace("LIT", lit).replace("VAR", var).replace("USE", use_);
+        // CALL(x) -> the call
+        while let Some(i) = b.find("CALL(") {
+          let mut depth = 0;
+          let mut end = i + 5;
+          for (k, ch) in b[i + 4..].char_indices() {
+            if ch == '(' {
+              depth += 1;
+            } else if ch == ')' {
+              depth -= 1;
+              if depth == 0 {
+                end = i + 4 + k;
+                break;
+              }
+            }
+          }
+          let arg = b[i + 5..end].to_string();
+          b = format!("{}{}{}", &b[..i], call(&arg), &b[end + 1..]);
+        }
+        let decl = if method {
+          format!("class R(val tag: int) {{\n  method f(n: int): {ty} = {{\n    Process.println(\"f \" :: Str.fromInt(n));\n    if n <= 0 {{ {base} }} else {{ {b} }}\n  }}\n}}\n")
+        } else {
+          String::new()
+        };
+        let fdecl = if method {
+          String::new()
+        } else {
+          format!("  function f(n: int): {ty} = {{\n    Process.println(\"f \" :: Str.fromInt(n));\n    if n <= 0 {{ {base} }} else {{ {b} }}\n  }}\n")
+        };
+        let b_in_method = decl.replace("Main.pred", "Main.pred");
+        let mut text = format!("class Opt<T>(None, Some(T)) {{}}\n{b_in_method}class Main {{\n  function pred(n: int): Opt<int> = if n <= 0 {{ Opt.None() }} else {{ Opt.Some(n - 1) }}\n{fdecl}  function main(): unit = {{\n");
+        for n in 0..5 {
+          let c = if method { format!("R.init(9).f(\"{n}\".toInt())") } else { format!("Main.f(\"{n}\".toInt())") };
+          text.push_str(&format!("    Process.println({});\n", show.replace('X', &c)));
+        }
+        text.push_str("  }\n}\n");
+        out.push(Prog {
+          family: "self-call-position",
+          shape: format!("position={pname} type={ty} {}", if method { "method" } else { "function" }),
+          name: format!("self-call {pname} {ty} {}", if method { "method" } else { "function" }),
+          text,
+        });
+      }
+    }
+  }
+  out
+}
+
 pub fn recursion_family(thorough: bool) -> Vec<Prog> {
   let mut out = vec![];
   let updates2 = ["a", "b", "a + b", "a - b", "b + 1", "a * 2", "0"];
@@ -1057,6 +1136,7 @@ pub fn all_families(thorough: bool) -> Vec<Prog> {
   v.extend(closure_family());
   v.extend(generic_closure_family());
   v.extend(recursion_family(thorough));
+  v.extend(self_call_position_family());
   v.extend(vec_family(thorough));
   v.extend(string_family());
   v.extend(pattern_family());
